@@ -41,6 +41,7 @@ type stream struct {
 	cancel context.CancelFunc
 	mu     sync.Mutex
 	got    [][]byte
+	delay  time.Duration // a live but slow reader: every Send takes this long
 	gate   chan struct{} // when non-nil, Send blocks until it is closed
 	failed error         // when set, Send returns it after the gate opens
 	inSend bool
@@ -49,10 +50,14 @@ type stream struct {
 func (s *stream) Send(m *spyv1.SubscribeSignedVAAResponse) error {
 	s.mu.Lock()
 	g := s.gate
+	d := s.delay
 	s.inSend = true
 	s.mu.Unlock()
 	if g != nil {
 		<-g
+	}
+	if d > 0 {
+		time.Sleep(d)
 	}
 	s.mu.Lock()
 	defer s.mu.Unlock()
@@ -353,6 +358,13 @@ func deliveryScenario(rng *rand.Rand, idx int) {
 	if !waitSubs(srv, nSubs) {
 		r.InconclusiveCase("subscriptions did not register")
 		return
+	}
+	if rng.Intn(3) == 0 { // one subscriber keeps reading, but slowly: it is still owed every matching VAA of a burst
+		sl := subs[rng.Intn(nSubs)]
+		sl.st.mu.Lock()
+		sl.st.delay = time.Duration(100+rng.Intn(500)) * time.Microsecond
+		sl.st.mu.Unlock()
+		r.Count("delivery_scenarios_with_a_slow_reader", 1)
 	}
 	n := 5 + rng.Intn(56)
 	var pubs [][]byte
